@@ -60,6 +60,16 @@ pub fn run(op: &str, a: &[String]) -> Vec<String> {
                 "empty" => vec![],
                 "many" => vec![other(1), other(2), own, other(3)],
                 "many_other" => vec![other(1), other(2), other(3)],
+                // near misses: one bit off at either end, one byte off in the middle
+                "near_last" | "near_first" | "near_mid" => {
+                    let mut h: [u8; 32] = *own.as_ref();
+                    match a[4].as_str() {
+                        "near_last" => h[31] ^= 0x01,
+                        "near_first" => h[0] ^= 0x80,
+                        _ => h[15] = h[15].wrapping_add(1),
+                    }
+                    vec![Sha256Digest::new(h)]
+                }
                 _ => panic!("hashes"),
             };
             let v = ServerHashVerification::new(hashes);
@@ -274,11 +284,11 @@ pub fn generate(prop: &str, thorough: bool, rng: &mut Rng, emit: &mut Emit) {
                     nows.sort();
                     nows.dedup();
                     for now in nows {
-                        for hs in ["match", "other", "empty", "many", "many_other"] {
+                        for hs in ["match", "other", "empty", "many", "many_other", "near_last", "near_first", "near_mid"] {
                             if alg != "p256" && !(hs == "match" || hs == "empty") {
                                 continue;
                             }
-                            if !thorough && hs.starts_with("many") && len != 14 * day {
+                            if !thorough && (hs.starts_with("many") || hs.starts_with("near")) && len != 14 * day {
                                 continue;
                             }
                             emit("pin.verify", vec![s(alg), s(nb), s(na), s(now), s(hs)]);
